@@ -39,7 +39,7 @@ Proof.
       * inversion H; subst. exists [], rest. split; [reflexivity|]. split; [|reflexivity].
         unfold usable. rewrite E6, G. reflexivity.
       * assert (Hx : negb (usable allow v6ok x) = true) by (unfold usable; rewrite E6, G; reflexivity).
-        destruct ((match status with None => true | Some _ => false end) && ip_is_loopback x).
+        destruct (ip_is_loopback x && only_loopback_so_far status).
         -- destruct (IH (Some SelLoopback) a) as (pre & post & -> & Hu & Hp); [intros b; discriminate|exact H|].
            exists (x :: pre), post. split; [reflexivity|]. split; [exact Hu|].
            cbn [forallb]. rewrite Hx. exact Hp.
@@ -60,7 +60,7 @@ Proof.
   - destruct (is_global_ip x || allow) eqn:G.
     + exfalso. eapply H. reflexivity.
     + cbn [negb andb].
-      destruct ((match status with None => true | Some _ => false end) && ip_is_loopback x).
+      destruct (ip_is_loopback x && only_loopback_so_far status).
       * apply (IH (Some SelLoopback)); [intros b; discriminate|exact H].
       * apply (IH (Some SelNonRoutable)); [intros b; discriminate|exact H].
 Qed.
@@ -110,3 +110,93 @@ Proof.
   all: rewrite forallb_app in Hall; apply andb_true_iff in Hall; destruct Hall as [_ Hall].
   all: cbn [forallb] in Hall; rewrite Hu in Hall; discriminate.
 Qed.
+
+(* ---- which refusal: loopback (311) exactly when every address the loop looks at is a loopback one ---- *)
+
+(* the addresses the loop looks at: IPv6 ones are passed over when IPv6 is not available *)
+Definition considered (v6ok : bool) (answers : list addr) : list addr :=
+  filter (fun a => negb ((afam a =? 6) && negb v6ok)) answers.
+
+Definition refusal_class (v6ok : bool) (answers : list addr) : decision :=
+  match considered v6ok answers with
+  | [] => ResolveFailed
+  | c => if forallb ip_is_loopback c then RefuseLoopback else RefuseNonroutable
+  end.
+
+Lemma select_refused allow v6ok answers : forall status,
+  (forall b, status <> Some (SelSuitable b)) ->
+  forallb (fun b => negb (usable allow v6ok b)) answers = true ->
+  select allow v6ok status answers =
+    match status with
+    | None =>
+      match considered v6ok answers with
+      | [] => None
+      | c => if forallb ip_is_loopback c then Some SelLoopback else Some SelNonRoutable
+      end
+    | Some SelLoopback =>
+      if forallb ip_is_loopback (considered v6ok answers) then Some SelLoopback else Some SelNonRoutable
+    | other => other
+    end.
+Proof.
+  induction answers as [|x rest IH]; intros status Hst Hall.
+  - cbn. destruct status as [[| |b]|]; reflexivity.
+  - cbn [forallb] in Hall. apply andb_true_iff in Hall. destruct Hall as [Hx Hrest].
+    cbn [select]. unfold considered. cbn [filter]. fold (considered v6ok rest).
+    unfold usable in Hx.
+    destruct ((afam x =? 6) && negb v6ok) eqn:E6; cbn [negb].
+    + apply (IH status Hst Hrest).
+    + cbn [negb andb] in Hx. apply negb_true_iff in Hx. rewrite Hx. cbn [forallb].
+      destruct (ip_is_loopback x) eqn:L; cbn [andb].
+      * destruct status as [[| |b]|]; cbn [only_loopback_so_far].
+        -- rewrite (IH (Some SelLoopback)); [reflexivity|intros b; discriminate|exact Hrest].
+        -- rewrite (IH (Some SelNonRoutable)); [reflexivity|intros b; discriminate|exact Hrest].
+        -- exfalso. apply (Hst b). reflexivity.
+        -- rewrite (IH (Some SelLoopback)); [reflexivity|intros b; discriminate|exact Hrest].
+      * rewrite (IH (Some SelNonRoutable)); [|intros b; discriminate|exact Hrest].
+        destruct status as [[| |b]|]; try reflexivity. exfalso. apply (Hst b). reflexivity.
+Qed.
+
+(* a name none of whose addresses may be connected to is refused as loopback when all the addresses looked at are
+   loopback ones, as non-routable as soon as one of them is not (and fails to resolve when there is none) *)
+Lemma decide_hostname_refusal_class allow v6ok answers :
+  forallb (fun b => negb (usable allow v6ok b)) answers = true ->
+  decide_hostname allow v6ok answers = refusal_class v6ok answers.
+Proof.
+  intros Hall. unfold decide_hostname, refusal_class.
+  rewrite (select_refused allow v6ok answers None); [|intros b; discriminate|exact Hall].
+  destruct (considered v6ok answers) as [|c cs]; [reflexivity|].
+  destruct (forallb ip_is_loopback (c :: cs)); reflexivity.
+Qed.
+
+Lemma considered_perm v6ok l l' : Permutation l l' -> Permutation (considered v6ok l) (considered v6ok l').
+Proof.
+  intros HP. unfold considered.
+  induction HP as [|x l l' HP IH|x y l|l l' l'' HP1 IH1 HP2 IH2]; cbn [filter].
+  - constructor.
+  - destruct (negb ((afam x =? 6) && negb v6ok)); [constructor|]; exact IH.
+  - destruct (negb ((afam x =? 6) && negb v6ok)), (negb ((afam y =? 6) && negb v6ok)); try apply Permutation_refl.
+    apply perm_swap.
+  - eapply Permutation_trans; eassumption.
+Qed.
+
+(* the kind of refusal does not depend on the order of the resolver's answer either *)
+Lemma refusal_class_order_independent v6ok l l' :
+  Permutation l l' -> refusal_class v6ok l = refusal_class v6ok l'.
+Proof.
+  intros HP. unfold refusal_class. pose proof (considered_perm v6ok l l' HP) as HC.
+  destruct (considered v6ok l) as [|a t], (considered v6ok l') as [|a' t'].
+  - reflexivity.
+  - apply Permutation_nil in HC. discriminate.
+  - apply Permutation_sym, Permutation_nil in HC. discriminate.
+  - rewrite (forallb_perm ip_is_loopback _ _ HC). reflexivity.
+Qed.
+
+(* the defect this replaced: with the test "no status yet" only a first address could be reported as loopback *)
+Example ex_two_loopback_addresses :
+  let lo1 := {| afam := 4; aip := 2130706433 |} in      (* 127.0.0.1 *)
+  let lo2 := {| afam := 4; aip := 2130706434 |} in      (* 127.0.0.2 *)
+  let lo6 := {| afam := 6; aip := 1 |} in               (* ::1 *)
+  let priv := {| afam := 4; aip := 167838211 |} in      (* 10.1.2.3 *)
+  map (decide_hostname false true) [[lo1]; [lo1; lo2]; [lo6; lo1]; [lo1; priv]; [priv; lo1]; [priv]; []]
+  = [RefuseLoopback; RefuseLoopback; RefuseLoopback; RefuseNonroutable; RefuseNonroutable; RefuseNonroutable; ResolveFailed].
+Proof. vm_compute. reflexivity. Qed.
